@@ -29,7 +29,7 @@ fn main() {
         qcap: 8,
     };
     h.assume("after a unit with an undefined header the rest of that message may be executed or dropped (both accepted)");
-    let cases = h.tier.pick(120_000, 3_000_000);
+    let cases = h.tier.pick(300_000, 3_000_000);
     h.check(
         "c02.fixture",
         "proptest tapes -> 1-4 messages of 1-5 units over the fx fixture (A exists at the root, under SYSTem, under SYSTem:SUB and under [SENSe]:VOLTage; optional nodes; common commands; sync and async handlers with Pending scripts): units drawn relative to the model's current path (relative valid, absolute incl. single-mnemonic, common, context-mismatched), messages ending in ';', empty messages; the whole buffer through run (recording writer) and through process must match the reference interpreter event for event (handler, arguments, responses in unit order, -113 where the model says so), each message predicted from the root path; a handler must finish before anything else is observed; non-trivial = a relative unit that resolves differently from its context than from the root, or a message following one that ended in ';' or was empty",
